@@ -89,11 +89,13 @@ def step (s : St) (op : String) (failAt : Option Nat) : St × String :=
   | ["box"] => (s, "ok")      -- the CryptoBox reads a key; it writes nothing and changes no key
   | _ => (s, "bad")
 
-def runOps (c06 : Bool) (ops : List String) (crash : Option Nat) : St × List String :=
+/-- `rfault`: the first storage READ of the last call meets a transient fault (the harness puts such a fault under a
+    call that begins by probing the store: an import): the call fails and nothing changes -/
+def runOps (c06 : Bool) (ops : List String) (crash : Option Nat) (rfault : Bool := false) : St × List String :=
   let n := ops.length
   (ops.zipIdx).foldl (fun (acc : St × List String) (op, i) =>
     let fa := if i + 1 == n then crash else none
-    let r := step acc.1 op fa
+    let r := if rfault && i + 1 == n then (acc.1, "err") else step acc.1 op fa
     let o := if c06 then
         (if r.2.startsWith "ok:" && (op.startsWith "create" || op.startsWith "import") then r.2
          else (r.2.splitOn ":").headD r.2)
@@ -111,7 +113,7 @@ def handle06 (input : String) : String :=
   match parse input with
   | none => "bad-input"
   | some (ops, crash) =>
-    let r := runOps true ops crash
+    let r := runOps true ops crash (input.endsWith "|rfault=1")
     let lastFailed := (r.2.getLast?.map (·.startsWith "err")).getD false
     let probes := r.1.keys.map fun k =>
       let ok := r.1.store.contains k.idTok
